@@ -502,6 +502,71 @@ def clone_requirement_ok(name, kind, sub):
     return True
 
 
+
+# ---------------------------------------------------------------------------------------------
+# C04 / C06: per method class, which constraint-grid keys its add_constraints reads or rejects, and whether it adds the
+# time-grid coupling rows; C13: where the transcribed flag is written and where it is read
+METHOD_FILES = [("MultipleShooting", "multiple_shooting.py"), ("SingleShooting", "single_shooting.py"),
+                ("DirectCollocation", "direct_collocation.py"), ("SplineMethod", "spline_method.py")]
+GRID_KEYS = ["control", "integrator", "integrator_roots", "inf"]
+
+
+def readstable():
+    rows = []
+    for cls, fname in METHOD_FILES:
+        tree = ast.parse(open(os.path.join(REPO, "rockit", fname)).read())
+        node = _find_function(tree, cls, None)
+        reads, rejects = set(), set()
+        coupling = False
+        if node is not None:
+            for n in ast.walk(node):
+                # stage._constraints["key"] anywhere in the class
+                if isinstance(n, ast.Subscript) and isinstance(n.value, ast.Attribute) and n.value.attr == "_constraints" \
+                        and isinstance(n.slice, ast.Constant) and isinstance(n.slice.value, str):
+                    reads.add(n.slice.value)
+                if isinstance(n, ast.Call) and isinstance(n.func, ast.Attribute) and n.func.attr == "add_coupling_constraints":
+                    coupling = True
+                # `if stage._constraints["key"]: raise …`  and  `assert "key" not in stage._constraints`
+                if isinstance(n, ast.If) and any(isinstance(m, ast.Raise) for b_ in n.body for m in ast.walk(b_)):
+                    for m in ast.walk(n.test):
+                        if isinstance(m, ast.Subscript) and isinstance(m.value, ast.Attribute) and m.value.attr == "_constraints" \
+                                and isinstance(m.slice, ast.Constant):
+                            rejects.add(m.slice.value)
+                if isinstance(n, ast.Assert):
+                    src = _norm(ast.unparse(n.test))
+                    for key in GRID_KEYS:
+                        if src in ("'%s'notinstage._constraints" % key, '"%s"notinstage._constraints' % key):
+                            rejects.add(key)
+        placed = {k for k in reads if k not in rejects}
+        rows.append((cls, fname, sorted(placed), sorted(rejects), coupling))
+    # the transcribed flag
+    tree = ast.parse(open(os.path.join(REPO, "rockit", "stage.py")).read())
+    wfn = _find_function(tree, "Stage", "_set_transcribed")
+    rfn = _find_function(tree, "Stage", "_is_transcribed")
+    written = sorted({_norm(ast.unparse(t)) for n in ast.walk(wfn) if isinstance(n, ast.Assign) for t in n.targets}) if wfn else []
+    read = sorted({_norm(ast.unparse(n.value)) for n in ast.walk(rfn) if isinstance(n, ast.Return) and "_var_is_transcribed" in ast.unparse(n.value)}) if rfn else []
+    L = ["/-! GENERATED by tools/extract.py from /repo/rockit/{multiple_shooting,single_shooting,direct_collocation,spline_method,stage}.py — do not edit. -/",
+         "namespace Rockit.Generated", "",
+         "structure MethodReads where", "  cls : String", "  placed : List String", "  rejected : List String", "  coupling : Bool",
+         "deriving Repr, DecidableEq", "",
+         "/-- per transcription method: the constraint-grid keys its `add_constraints` places, the ones it rejects (raise/assert), and whether it",
+         "adds the time-grid coupling rows (`add_coupling_constraints`) -/",
+         "def methodReads : List MethodReads := ["]
+    for i, (cls, fname, placed, rejects, coupling) in enumerate(rows):
+        L.append('  { cls := "%s", placed := %s, rejected := %s, coupling := %s }%s  -- %s' % (
+            cls, lean_str_list(placed), lean_str_list(rejects), str(coupling).lower(), "," if i < len(rows) - 1 else "", fname))
+    L += ["]", "", "/-- the grid keys `Stage.subject_to` accepts for path constraints -/",
+          "def pathGridKeys : List String := " + lean_str_list(GRID_KEYS), "",
+          "/-- where `Stage._set_transcribed` writes the flag and what `Stage._is_transcribed` returns for an original stage -/",
+          "def flagWrittenTo : List String := " + lean_str_list(written),
+          "def flagReadFrom : List String := " + lean_str_list(read), "", "end Rockit.Generated", ""]
+    path = os.path.join(OUT, "Reads.lean")
+    new_src = "\n".join(L)
+    if not os.path.exists(path) or open(path).read() != new_src:
+        open(path, "w").write(new_src)
+    return rows, written, read
+
+
 _main_inval = main
 
 
@@ -510,6 +575,7 @@ def main():
     guards()
     infcert()
     clonetable()
+    readstable()
     return rows
 
 
